@@ -156,6 +156,11 @@ pub trait Sut {
     fn skew(&self) -> usize {
         0
     }
+    /// start offset (mod 16) of the second execution of every transition: types without alignment
+    /// requirements are also run from an odd address
+    fn alt_skew(&self) -> usize {
+        self.skew()
+    }
     /// is this state non-trivial (for the evidence count)?
     fn nontrivial(&self, state: &[u8]) -> bool;
 }
@@ -236,7 +241,7 @@ fn transition(
     if !a.guards_ok() {
         findings.push(Finding { property: "C05", what: format!("bytes outside the buffer modified by `{}`", op.text()) });
     }
-    let mut b = ABuf::new_skewed(pre, (salt + 1) % 3 + 1, 0x3C, sut.skew());
+    let mut b = ABuf::new_skewed(pre, (salt + 1) % 3 + 1, 0x3C, sut.alt_skew());
     let out_b = sut.apply(&mut b, op);
     let post_b = b.bytes().to_vec();
     if !b.guards_ok() {
